@@ -33,7 +33,7 @@ pub fn st_fmt(c: &MoveChain) -> String {
 fn mutating(kind: &str) -> bool {
     matches!(
         kind,
-        "pm" | "pU" | "pu" | "pS" | "ps" | "pl" | "pop" | "so" | "co" | "ro" | "auto" | "clone" | "swap"
+        "pm" | "pU" | "pu" | "pS" | "ps" | "pl" | "pop" | "so" | "co" | "ro" | "auto" | "clone" | "swap" | "alt"
     )
 }
 
@@ -254,6 +254,25 @@ impl ChainSim {
             ("clone", 1) => {
                 self.other = Some(self.cur.clone());
                 "ok".to_string()
+            }
+            ("alt", 7) => {
+                // `other` := a fresh chain from another start position with the current UCI list replayed
+                let raw = match raw_parse(&t[1..7]) {
+                    Some(r) => r,
+                    None => return BAD.to_string(),
+                };
+                let start = match Board::try_from(raw) {
+                    Ok(b) => b,
+                    Err(_) => return "invalid".to_string(),
+                };
+                let text = self.cur.uci().to_string();
+                match MoveChain::from_uci_list(start, &text) {
+                    Ok(c2) => {
+                        self.other = Some(c2);
+                        "ok".to_string()
+                    }
+                    Err(e) => format!("err@{}", e.pos),
+                }
             }
             ("swap", 1) => match self.other.take() {
                 Some(o) => {
